@@ -23,6 +23,9 @@ CONSTANTS NetKinds,     \* subset of {"drop","dup","hold1","hold2","split2","spl
           MaxOrd,       \* operations address ordinals 1..MaxOrd of a (direction, label)
           FpCs, FpSs,   \* expected-fingerprint modes explored: subsets of {"none","match","mismatch"}
           IdCs, IdSs,   \* certificate actually held by the client / server endpoint: "certC"/"certS" or "certM"
+          TickQuiet,    \* TRUE: retransmission ticks fire only when the network is quiet (tick >> transit time);
+                        \* FALSE: also while at most TickSlack datagrams of the ticking side are still in flight
+          TickSlack,
           UseDeadline,  \* TRUE: the handshake deadline may fire (safety runs)
           SendAppData   \* TRUE: one application record each way once both are Connected
 
@@ -85,8 +88,10 @@ Deliver(d) ==
   /\ UNCHANGED <<held, cnt, shift, nb, ab, ops, cfg, appSent>>
 
 \* The retransmission timer is long compared with the transit time: it fires when the network is quiet.
+TickMay(e) == IF TickQuiet THEN Quiescent
+              ELSE outbox = <<>> /\ Len(net[DirOf(e)]) <= TickSlack /\ Len(net[DirOf(Peer(e))]) <= TickSlack
 Tick(e) ==
-  /\ Quiescent /\ ep[e].started
+  /\ TickMay(e) /\ ep[e].started
   /\ ep[e].st = "Handshaking" /\ TickOf(ep[e]).out # <<>>
   /\ Apply(e, TickOf(ep[e]))
   /\ UNCHANGED <<net, held, cnt, shift, nb, ab, ops, cfg, appSent>>
